@@ -150,6 +150,7 @@ class Verifier(Executor):
         """Dry run of one iteration from a fully havoced state: which cells / locals does it write?"""
         st_h = self.havoc_all(st)
         refs, names = set(), set()
+        self._new_locals = {}            # names first bound inside the loop body -> a sample value (for its type)
         saved_vcs, saved_paths = len(self.vcs), self.paths
         def end(st2):
             for r, c in st2.heap.items():
@@ -167,6 +168,8 @@ class Verifier(Executor):
                 if n.startswith(("_i", "_n", "_it")) and n[-1].isdigit(): continue      # ghost loop variables
                 if n not in st_h.env or st_h.env[n] is not v:
                     names.add(n)
+                if n not in st_h.env and n not in self._new_locals:
+                    self._new_locals[n] = v
             if st2.alive is not st_h.alive: names.add("alive")
             if st2.warned is not st_h.warned: names.add("warned")
             for gk, gv in st2.ghost.items():
@@ -212,6 +215,7 @@ class Verifier(Executor):
             st_b = st_b.bind(f"_i{lk}", I(i)).bind(f"_n{lk}", I(n)).bind(f"_it{lk}", tsq[-1][1])
             bind_targets(st_b, i)(tsq, st_b, lambda st_c: self.ex(s.body, st_c, end))
         refs, names = self.write_set(body_runner, st)
+        new_locals = dict(self._new_locals)
         names -= {t.id for t, _ in tsq if isinstance(t, ast.Name)}
         # (3) an arbitrary iteration preserves the invariant
         st_h = self.havoc_all(st, only_refs=refs, only_names=names)
@@ -229,10 +233,29 @@ class Verifier(Executor):
         bind_targets(st_i, i)(tsq, st_i, lambda st_c: self.ex(s.body, st_c, body_end))
         # (4) after the loop: invariant at n (or the state at a `break`)
         st_e = self.havoc_all(st, only_refs=refs, only_names=names)
+        st_e = self.bind_loop_locals(st_e, new_locals)
         st_e = st_e.assume(inv_at(st_e, n))
         self.ex(s.orelse, st_e.but(fr=fr), k)          # for-else: only when the loop was not left by break
         for sb in after:
             k(sb.but(fr=fr))
+
+    def bind_loop_locals(self, st, new_locals):
+        """Locals first assigned inside a loop body are bound (to unknown values of the observed type) after the loop.
+        ASSUMPTION (listed in the evidence): the UnboundLocalError Python raises when such a name is read after zero
+        iterations is not modelled."""
+        for n, v in new_locals.items():
+            if n in st.env or n.startswith("_"): continue
+            try:
+                if isinstance(v, (SPrim, SSeq)) and getattr(v, "elem", 0) is not None:
+                    nv, st = fresh_value(st, v.ty, "ll." + n)
+                elif isinstance(v, SOpaqueObj):
+                    nv = SOpaqueObj("ll." + n)
+                else:
+                    continue
+            except Exception:
+                continue
+            st = st.bind(n, nv)
+        return st
 
     def check_iterated_unchanged(self, s, it, st_before, st_after, label):
         """`RuntimeError: dictionary changed size during iteration` must be impossible."""
@@ -467,6 +490,10 @@ def prove_vc(axioms, hyps, goal):
     if nf: tiers.append(pcs)
     tiers.append(relevant_hyps(list(hyps), goal, 2))
     t, tried, last = 0.0, set(), None
+    r0 = prover.check_valid(axioms + list(hyps), goal, rlimit=PYVC_RLIMIT // 8, use_cvc5=False)     # a quick try of the whole VC
+    t += r0.time_s
+    if r0.proved or r0.status == "sat":
+        return r0, t
     for sub in tiers:
         key = tuple(sorted(h.get_id() for h in sub))
         if len(sub) == len(hyps) or key in tried: continue
